@@ -18,6 +18,7 @@ type Side struct {
 	KeepAlive string   `json:"keepalive"`           // "off" | "short" (< idle/2) | "long" (> idle)
 	Blocked   []string `json:"blocked,omitempty"`   // calls blocked when the cause occurs: read write accept acceptuni open openuni dgram
 	WriteUni  bool     `json:"write_uni,omitempty"` // the blocked Write uses a unidirectional stream
+	Mult      int      `json:"mult,omitempty"`      // >1: that many goroutines block in each of accept / acceptuni / open / openuni / dgram
 	CIDLen    int      `json:"cid_len"`             // Transport.ConnectionIDLength
 	ResetKey  bool     `json:"reset_key,omitempty"` // Transport.StatelessResetKey set (always true for the server)
 }
@@ -70,6 +71,7 @@ func genSide(t *rapid.T, label string, server bool) Side {
 		}
 	}
 	s.WriteUni = rapid.Bool().Draw(t, label+"wuni")
+	s.Mult = rapid.SampledFrom([]int{1, 1, 1, 2, 3}).Draw(t, label+"mult")
 	s.CIDLen = rapid.SampledFrom([]int{4, 4, 8, 12, 20}).Draw(t, label+"cid")
 	s.ResetKey = server || rapid.Bool().Draw(t, label+"rk")
 	return s
